@@ -1318,6 +1318,39 @@ var c01ReflectFaults = map[string]string{
 	"Value.Close":       "close",
 	"MakeSlice":         "make",
 	"MakeChan":          "make",
+	"Select":            "select-send", // a send case on a closed channel panics with "send on closed channel"
+}
+
+// c01SelectRecvOnly reports whether every reflect.SelectCase literal of the clause has the receive
+// direction and there is at least one: the slice given to reflect.Select in that clause then holds
+// receive cases (plus the cancellation case) only, and selecting over it cannot fault.
+func c01SelectRecvOnly(info *types.Info, clause ast.Node) bool {
+	n, allRecv := 0, true
+	ast.Inspect(clause, func(m ast.Node) bool {
+		cl, ok := m.(*ast.CompositeLit)
+		if !ok {
+			return true
+		}
+		if t := info.TypeOf(cl); t == nil || typeStr(t) != "reflect.SelectCase" {
+			return true
+		}
+		n++
+		dir := ""
+		for _, el := range cl.Elts {
+			if kv, ok := el.(*ast.KeyValueExpr); ok {
+				if k, ok := kv.Key.(*ast.Ident); ok && k.Name == "Dir" {
+					if c := constOf(info, kv.Value); c != nil {
+						dir = c.Name()
+					}
+				}
+			}
+		}
+		if dir != "SelectRecv" {
+			allRecv = false
+		}
+		return true
+	})
+	return n > 0 && allRecv
 }
 
 func (x *c01) findClassifier() (*FuncInfo, *ast.SwitchStmt) {
@@ -1599,6 +1632,9 @@ func (x *c01) ruleR5() {
 						return true
 					}
 					if c == "map-key" && len(e.Args) == 1 && hashableKey(e.Args[0]) {
+						return true
+					}
+					if c == "select-send" && c01SelectRecvOnly(info, h.clause) {
 						return true
 					}
 					add(c, e.Pos())
